@@ -70,6 +70,14 @@ theorem readTy_write (strict : Bool) (env : Env) : ∀ v, RWOk strict env v := b
           readTy (readG strict env fuel) pool binds el (a ++ r') = .ok (v, r') :=
         fun v hv a r' ha => ih v hv fuel el pool binds a r' (depthAll_le hd v hv) (fitsAll_mem hfa v hv) ha
       simp only [readTy, hlen, readN_writeAll env _ el vs b r hel hw, Res.bind_ok]
+    | vecSlots e wd el =>
+      simp only [writeV] at hw
+      simp only [fitsV, Bool.and_eq_true, beq_iff_eq] at hf
+      obtain ⟨hlen, hfa⟩ := hf
+      have hel : ∀ v ∈ vs, ∀ a r', writeV env el v = some a →
+          readTy (readG strict env fuel) pool binds el (a ++ r') = .ok (v, r') :=
+        fun v hv a r' ha => ih v hv fuel el pool binds a r' (depthAll_le hd v hv) (fitsAll_mem hfa v hv) ha
+      simp only [readTy, hlen, readSlots_writeAll env wd _ el vs b r hel hw, Res.bind_ok]
   | hnode k fs ih =>
     intro fuel ty pool binds b r hd hf hw
     simp only [depthV] at hd
@@ -77,6 +85,7 @@ theorem readTy_write (strict : Bool) (env : Env) : ∀ v, RWOk strict env v := b
     | prim p => simp [writeV] at hw
     | vecCnt c el => simp [writeV] at hw
     | vecLen e el => simp [writeV] at hw
+    | vecSlots e wd el => simp [writeV] at hw
     | ref id =>
       cases fuel with
       | zero => omega
@@ -117,7 +126,7 @@ theorem readTy_write (strict : Bool) (env : Env) : ∀ v, RWOk strict env v := b
               · rename_i b1 hcb
                 have hlt : t % tagTy.bound < tagTy.bound := Nat.mod_lt _ (by cases tagTy <;> simp [Prim.bound])
                 simp only [List.append_assoc, takeBE_be _ _ _ hlt,
-                  selectVariant_of_idx env.utf8 pool _ variants k var hsel hv, Res.bind_ok]
+                  selectVariant_of_idx env.utf8 env.wide pool _ variants k var hsel hv, Res.bind_ok]
                 exact readBody_write strict env fuel id k var.body fs pool _ b1 a w r _ ih hd' hcb hf ha hw' ⟨t, ht, rfl⟩
               · cases hf
             · cases hw
